@@ -14,12 +14,12 @@ MANIFEST = {
     "text": "Systems {diatomic; 3-chain with each labelling of the middle atom; 3-ring; 4-atom star with each labelling of "
             "the centre (quick: centre 0 and 3); 3-chain + diatomic + ion in a blocked and an interleaved atom order with "
             "anchors {A} and {A,B}; the same + 8 ions (11 molecules) with guessed anchors; an explicit 3-chain anchor + one non-anchor "
-            "molecule W in {3-chain, 3-ring, 4-star, 4-path} in EVERY permutation of W's atom order (6+6+24+24; thorough also W "
+            "molecule W in {3-chain, 3-ring, 4-star, 4-path} in EVERY permutation of W's atom order (6+6+24+24; thorough also 3-atom W "
             "numbered before the anchor), W placed so that after centring it straddles the x, y or z face or the corner of "
             "the cell, image_molecules called with its default other_molecules (Topology.find_molecules()); a 4-star + "
             "relabelled 3-chain + 9 ions for the fully default call} x every permutation of the bond list (<= 3 bonds; "
-            "relabelled systems one order) x cell pairs (menu cell i on even frames, cell i+1 on odd frames; quick 10 cells incl. "
-            "unreduced forms, thorough 24) x scatters: for <= 3 atoms every assignment of images {-1,0,1}^3 per atom "
+            "relabelled systems one order) x cell pairs (menu cell i on even frames, cell i+1 on odd frames; the whole vlib.grids menu incl. "
+            "unreduced forms, quick 12 / thorough 26 cells) x scatters: for <= 3 atoms every assignment of images {-1,0,1}^3 per atom "
             "(27^2, 27^3 = 19683 frames; quick: diatomic complete, 3 atoms: atom 0 in the home image and every assignment for "
             "the other two = 729 frames, i.e. every relative image configuration; mix6 bond permutations 0 and 5 only), for larger systems the identity, every single-atom "
             "scatter, every single-bond cut with either side moved, every single-molecule shift (relabelled systems: 4 placements x "
@@ -33,13 +33,22 @@ MANIFEST = {
             "make_whole=False every non-anchor molecule moves rigidly; unit cell and time bit-identical; inplace=False "
             "leaves the source bit-identical, returns a new object sharing no memory; inplace=True returns self and "
             "produces bit-identical coordinates. Separately Topology.find_molecules() must equal the union-find connected components "
-            "for every system and for every labelled bond graph on 1..5 atoms (1099 graphs x 2 bond-list orders). Right level: re-imaging is integer arithmetic on image numbers, so the "
+            "for every system and for every labelled bond graph on 1..5 atoms (1099 graphs x 2 bond-list orders). History layer: "
+            "ONE Topology object shared by successive trajectories, every op sequence of length 2..3 (thorough 4 on 3 cell "
+            "pairs, 3 on all) ending in a re-imaging op over {make_molecules_whole, image_molecules(make_whole=True), "
+            "insert_atom at the front / inside the first molecule (+ coordinates), delete_atom_by_index of the lowest "
+            "unbonded atom (+ coordinates), add_bond of an inserted site to its reference atom} for two systems (O,H,H + ion "
+            "+ O,H,H; H,H,O + ion + centre-last 4-star), each re-imaging step re-scattered (identity, every atom and every "
+            "molecule by the 6 face images) and judged on the topology as it is then (lattice moves, bonded pairs at the "
+            "minimum image) and compared bitwise with the same call on the same topology built from scratch; each item runs "
+            "in a forked child so heap corruption by stale indices is reported (process-died) instead of hanging. Right level: re-imaging is integer arithmetic on image numbers, so the "
             "behaviour is determined by the relative image configuration, which is enumerated completely.",
     "note": "Molecule extent is 0.2 x the smallest width (cell as given) per bond, all intramolecular distances < 0.4 width; "
             "cells in mdtraj's standard orientation only (a along x, b in the xy-plane); images within +-1 cell per atom. "
             "image_molecules.pxi cannot be rebuilt here (no Cython): defects in it are found but mutations are limited to "
             "trajectory.py/topology.py and the C++ closest-contact kernel. guess_anchor_molecules raises ValueError for "
-            "fewer than 10 molecules: counted, not judged. md.compute_distances/angles/dihedrals(periodic=True) before vs "
+            "fewer than 10 molecules: counted, not judged. delete_atom_by_index does not remove the bonds of the deleted atom "
+            "(dangling Bond objects): only unbonded atoms are deleted. md.compute_distances/angles/dihedrals(periodic=True) before vs "
             "after are recorded (lattice invariance of those functions is C09), not judged.",
     "ref": "DESIGN.md §3 C11, §2.4",
 }
